@@ -1,7 +1,6 @@
 use crate::engine::core::CandidateZone;
 use crate::engine::core::Event;
 use crate::engine::core::event::event_builder::EventBuilder;
-use crate::engine::core::event::event_id::EventId;
 use crate::engine::core::filter::condition::{FieldAccessor, PreparedAccessor};
 use crate::engine::core::read::sequence::group::RowIndex;
 use crate::engine::core::read::sequence::matcher::MatchedSequenceIndices;
@@ -223,11 +222,9 @@ impl SequenceMaterializer {
             }
         }
 
-        let mut event = builder.build();
-        // Generate event ID (using a simple approach - in production this would use EventIdGenerator)
-        event.set_event_id(EventId::from(0)); // Placeholder - should use proper ID generation
-
-        Some(event)
+        // The id comes from the zone's `event_id` column (the builder routes that column to the
+        // event id like `timestamp` / `context_id`); it stays 0 only if the zone has no such column
+        Some(builder.build())
     }
 }
 
